@@ -106,10 +106,196 @@ Proof.
   - eapply lookup_in_ok; eauto.
 Qed.
 
+(* ------------------------------------------------------------------ positions of intersect rows *)
+Definition noemp (t : tree) : Prop := has_empty_elem t = false.
+Definition int_need (tr : tkey -> bool) (i : nat) : Prop :=
+  tr (Z.of_nat i, K_INT, 0) = true \/ tr (Z.of_nat i, K_INT, 1) = true.
+
+(* where an intersect trace is registered, the operands of that `&` are uncompressed or store no
+   empty element (outside known-finding region 1) *)
+Definition nest_int_ok (tr : tkey -> bool) (i : nat) (lv : list level) (e : env) : Prop :=
+  forall k L x y, nth_error lv k = Some L -> l_src L = SAnd x y -> int_need tr (i + k) ->
+  l_ufmt L = true \/ (noemp (nth x e (Node [])) /\ noemp (nth y e (Node []))).
+
+Definition cleaner (e e' : env) : Prop :=
+  forall x, noemp (nth x e (Node [])) -> noemp (nth x e' (Node [])).
+
+Lemma nest_int_ok_down : forall tr i L lv e e', nest_int_ok tr i (L :: lv) e -> cleaner e e' ->
+  nest_int_ok tr (S i) lv e'.
+Proof.
+  intros tr i L lv e e' H Hc k L' x y Hn Hs Hi.
+  assert (Hi' : int_need tr (i + S k)).
+  { replace (i + S k)%nat with (S i + k)%nat by lia. exact Hi. }
+  destruct (H (S k) L' x y Hn Hs Hi') as [Hu|[Hx Hy]]; [left; exact Hu|right; split; apply Hc; auto].
+Qed.
+
+Lemma noemp_child : forall es c t, has_empty_elem (Node es) = false -> In (c, t) es ->
+  is_empty 0 t = false /\ noemp t.
+Proof.
+  intros es c t H Hin. cbn in H. assert (forall ct, In ct es -> is_empty 0 (snd ct) || has_empty_elem (snd ct) = false).
+  { intros ct Hct. destruct (is_empty 0 (snd ct) || has_empty_elem (snd ct)) eqn:E; auto.
+    assert (existsb (fun ct0 => is_empty 0 (snd ct0) || has_empty_elem (snd ct0)) es = true).
+    { apply existsb_exists. exists ct. auto. } congruence. }
+  specialize (H0 _ Hin). cbn in H0. apply orb_false_iff in H0. exact H0.
+Qed.
+
+Lemma nth_set_nth : forall x x0 t (e : env),
+  nth x (set_nth x0 t e) (Node []) = if Nat.eqb x x0 && Nat.ltb x0 (length e) then t else nth x e (Node []).
+Proof.
+  intros x x0 t e. revert x x0. induction e as [|u e IH]; intros x x0.
+  - destruct x0, x; cbn; rewrite ?andb_false_r; reflexivity.
+  - destruct x0, x; cbn; auto. rewrite IH. reflexivity.
+Qed.
+
+Lemma cleaner_set : forall e x0 t, (noemp (nth x0 e (Node [])) -> noemp t) -> cleaner e (set_nth x0 t e).
+Proof.
+  intros e x0 t H x Hx. rewrite nth_set_nth.
+  destruct (Nat.eqb x x0 && Nat.ltb x0 (length e)) eqn:E; auto.
+  apply andb_true_iff in E. destruct E as [E _]. apply Nat.eqb_eq in E. subst x0. auto.
+Qed.
+
+Lemma cleaner_trans : forall a b c, cleaner a b -> cleaner b c -> cleaner a c.
+Proof. intros a b c H1 H2 x Hx. auto. Qed.
+
+Lemma sub_noemp : forall e x, noemp (nth x e (Node [])) -> has_empty_elem (Node (sub e x)) = false.
+Proof.
+  intros e x H. unfold sub. destruct (nth x e (Node [])) as [v|es]; auto.
+Qed.
+
+Lemma offered_noemp : forall es, has_empty_elem (Node es) = false -> offered es = es.
+Proof.
+  intros es H. unfold offered, present.
+  assert (Hall : forall ct, In ct es -> negb (is_empty 0 (snd ct)) = true).
+  { intros [c t] Hin. cbn [snd]. destruct (noemp_child es c t H Hin) as [-> _]. reflexivity. }
+  clear H. induction es as [|ct es IH]; cbn; auto.
+  rewrite (Hall ct (or_introl eq_refl)). f_equal. apply IH. intros ct' Hc. apply Hall. right. exact Hc.
+Qed.
+
+Lemma index_in_nth : forall es j c t, ssorted_f es -> nth_error es j = Some (c, t) ->
+  index_in c es = Some (Z.of_nat j).
+Proof.
+  induction es as [|[c' t'] es IH]; intros j c t Hs Hn; [destruct j; discriminate|].
+  destruct Hs as [Hg Hs]. destruct j; cbn in Hn.
+  - inversion Hn; subst. cbn. rewrite Z.eqb_refl. reflexivity.
+  - cbn [index_in]. assert (c' < c).
+    { apply nth_error_In in Hn. clear - Hg Hn. induction es as [|[c2 t2] es IH]; [destruct Hn|].
+      destruct Hg as [H1 H2]. destruct Hn as [Hn|Hn]; [inversion Hn; subst; auto|auto]. }
+    destruct (c =? c') eqn:E; [lia|]. rewrite (IH j c t Hs Hn). cbn [option_map]. f_equal. lia.
+Qed.
+
+Lemma dense_nth : forall sh es j ct, nth_error (dense sh es) j = Some ct -> fst ct = Z.of_nat j.
+Proof.
+  intros sh es j ct H. unfold dense, iota in H. rewrite !nth_error_map in H.
+  destruct (nth_error (seq 0 (Z.to_nat sh)) j) eqn:E; [|discriminate]. cbn in H. inversion H; subst. cbn.
+  assert (j < length (seq 0 (Z.to_nat sh)))%nat by (apply nth_error_Some; congruence).
+  rewrite (nth_error_nth' _ O H0) in E. rewrite seq_nth in E by (rewrite seq_length in H0; lia).
+  inversion E. reflexivity.
+Qed.
+
+Lemma pos_ok_of : forall L e x, env_ok e ->
+  (l_ufmt L = true \/ noemp (nth x e (Node []))) -> pos_ok L e x.
+Proof.
+  intros L e x He H j ct Hn. unfold pos_in, ref_off, offered_f in *.
+  destruct (l_ufmt L) eqn:EU.
+  - f_equal. eapply dense_nth; eauto.
+  - destruct H as [H|H]; [discriminate|].
+    rewrite (offered_noemp _ (sub_noemp e x H)) in Hn. destruct ct as [c t]. cbn [fst].
+    eapply index_in_nth; eauto. apply (sub_ok e x He).
+Qed.
+
+Lemma lookup_In : forall c (es : fib) t, lookup c es = Some t -> exists c', In (c', t) es.
+Proof.
+  intros c es t. induction es as [|[c2 t2] es IH]; cbn; [discriminate|].
+  destruct (c =? c2); [intros E; inversion E; subst; eauto|intros E; destruct (IH E) as [c' H]; eauto].
+Qed.
+
+Lemma offered_f_child : forall u sh es c t, has_empty_elem (Node es) = false ->
+  In (c, t) (offered_f u sh es) -> noemp t.
+Proof.
+  intros u sh es c t H Hin. unfold offered_f in Hin. destruct u.
+  - unfold dense in Hin. apply in_map_iff in Hin. destruct Hin as (c' & E & _). inversion E; subst.
+    destruct (lookup c es) as [tt|] eqn:El; [|reflexivity].
+    destruct (lookup_In _ _ _ El) as [c2 Hin2].
+    apply (noemp_child es c2 tt H Hin2).
+  - unfold offered, present in Hin. apply filter_In in Hin. apply (noemp_child es c t H (proj1 Hin)).
+Qed.
+
+(* ------------------------------------------------------------------ for c, p in <uncompressed fiber> *)
+Lemma iter_plain_all_facts : forall (Q : thr -> Prop) x e (body : body_t) pt es j z,
+  (forall c e' z', Q z' -> Q (snd (body c e' z'))) -> Q z ->
+  let items := fst (iter_plain false x e body es j z) in
+  Forall (fun it => it_pre it = [] /\ it_post it = [] /\ Q (it_zin it)
+                    /\ (exists t, In (it_c it, t) es /\ it_env it = set_nth x t e)
+                    /\ it_body it = fst (body (it_c it) (it_env it) (it_zin it))) items
+  /\ children pt items = map (fun ct => (pt ++ [fst ct], set_nth x (snd ct) e)) es
+  /\ map (fun it => pt ++ [it_c it; it_j it]) items
+     = map (fun jc : Z * (Z * tree) => addr pt (fst (snd jc)) (Some (fst jc))) (enumZ es j)
+  /\ Q (snd (iter_plain false x e body es j z)).
+Proof.
+  intros Q x e body pt es j z Hb. revert j z. induction es as [|[c t] es IH]; intros j z Hz.
+  - cbn. repeat split; auto.
+  - cbn [iter_plain enumZ map fst snd andb].
+    destruct (IH (j + 1) (snd (body c (set_nth x t e) z)) (Hb _ _ _ Hz)) as (I1 & I2 & I3 & I4).
+    split; [|split; [|split]]; auto.
+    + constructor.
+      { cbn. repeat split; auto. exists t. split; auto. }
+      { eapply Forall_impl; [|exact I1]. intros it (A & B & N & (t' & Hin & C) & D).
+        repeat split; auto. exists t'. split; auto. right. exact Hin. }
+    + cbn [children map it_c it_env fst snd]. f_equal. exact I2.
+    + cbn [map it_c it_j]. f_equal. exact I3.
+Qed.
+
+Lemma u_level_spec : forall zs n tr zshape nz i x zu sh lv' pt e z (body : body_t),
+  length pt = i -> labinv i z ->
+  (forall c e' z', labinv (S i) z' -> labinv (S i) (snd (body c e' z'))) ->
+  (forall c t z', labinv (S i) z' -> In (c, t) (dense sh (sub e x)) ->
+     spec zs tr n (S i) lv' (pt ++ [c]) (set_nth x t e) (fst (body c (set_nth x t e) z'))) ->
+  let L := {| l_pop := false; l_src := SFib x; l_ufmt := true; l_zufmt := zu; l_proj := None;
+              l_shape := sh |} in
+  spec zs tr n i (L :: lv') pt e (fst (run_level tr zshape nz i L body e z))
+  /\ labinv i (snd (run_level tr zshape nz i L body e z)).
+Proof.
+  intros zs n tr zshape nz i x zu sh lv' pt e z body Lpt Hz Hbn Hbody L.
+  unfold run_level. cbn [l_pop l_src l_proj l_ufmt l_shape L negb fst snd].
+  destruct (lab_reg_inv i z Hz) as (R1 & Hz1 & _). rewrite R1.
+  destruct (iter_plain_all_facts (labinv (S i)) x e body pt (dense sh (sub e x)) 0 _ Hbn Hz1) as (F1 & F2 & F3 & F4).
+  set (res := iter_plain false x e body (dense sh (sub e x)) 0 (with_lab z (snd (lab_reg (th_lab z) (Z.of_nat i))))) in *.
+  set (items := fst res) in *.
+  split; [|apply lab_end_inv; exact F4].
+  assert (Hsimple : Forall (fun it => it_pre it = [] /\ it_post it = []) items).
+  { eapply Forall_impl; [|exact F1]. intros it (A & B & _). auto. }
+  cbn [reg_events map].
+  change (EReg (Z.of_nat i) :: nil ++ flat_items (Z.of_nat i) items ++ [] ++ [EEnd (Z.of_nat i)])
+    with ([EReg (Z.of_nat i)] ++ flat_items (Z.of_nat i) items ++ [] ++ [EEnd (Z.of_nat i)]).
+  assert (Hre : ref_elems L e = map (fun ct => (fst ct, set_nth x (snd ct) e)) (dense sh (sub e x))).
+  { unfold ref_elems, ref_off, offered_f, pcoord. cbn [l_src l_ufmt l_proj l_shape L]. reflexivity. }
+  apply GL; auto.
+  - eapply Forall_impl; [|exact F1]. intros it (A & B & N & (t & Hin & C) & D).
+    unfold item_ok. rewrite A, B, D, C. split; [constructor|split; [constructor|]].
+    apply Hbody; auto.
+  - unfold kids. cbn [fst snd]. rewrite Hre, F2, map_map. reflexivity.
+  - rewrite app_nil_r. apply (ltrace_simple i items Hsimple 0 None 0 0).
+  - rewrite app_nil_r. intros kind label. cbv zeta.
+    destruct (ltrace_simple i items Hsimple 0 None kind label) as [-> _].
+    split.
+    + destruct ((K_ITER =? kind) && (0 =? label)) eqn:E; [|reflexivity].
+      unfold stampR. assert (kind =? K_ITER = true) as -> by lia. apply chain_enum.
+    + intros Hsc. unfold expect_at.
+      cbn [l_pop l_src l_proj l_ufmt L andb orb negb].
+      destruct (kind =? K_ITER) eqn:EK.
+      * rewrite (Z.eqb_sym K_ITER), EK. cbn [andb]. rewrite (Z.eqb_sym 0).
+        destruct (label =? 0); cbn [negb orb]; [|reflexivity].
+        rewrite enum_addr, F3. rewrite Hre, enum_map, map_map.
+        apply map_ext. intros [j0 [c0 t0]]. reflexivity.
+      * rewrite (Z.eqb_sym K_ITER), EK. cbn [andb map].
+        destruct (kind =? K_INT); [reflexivity|]. destruct (kind =? K_POP); [reflexivity|].
+        destruct (kind =? K_RD); [reflexivity|]. destruct (kind =? K_WR); reflexivity.
+Qed.
+
 (* levels without populate: an eager compressed fiber, or x & y (any declared format) *)
 Definition eager_level (L : level) : bool :=
   negb (l_pop L) && match l_proj L with None => true | Some _ => false end
-  && match l_src L with SFib _ => negb (l_ufmt L) | SAnd _ _ => true end.
+  && match l_src L with SFib _ => true | SAnd x y => negb (Nat.eqb x y) end.
 
 Lemma eager_noall : forall tr zshape nz m lv, forallb eager_level lv = true ->
   forall i pt e z, labinv i z -> labinv i (snd (run tr zshape nz m lv i pt e z)).
@@ -126,10 +312,13 @@ Proof.
     destruct (lab_reg_inv i z Hz) as (R1 & R2 & R3 & _ & R5).
     cbn [run]. unfold run_level. cbn [l_pop l_src l_proj l_ufmt l_shape fst snd].
     destruct s as [x|x y].
-    + destruct u; [discriminate|]. cbn [negb snd].
-      destruct (iter_plain_facts (labinv (S i)) x e _ pt (sub e x) 0
+    + destruct u; cbn [negb snd].
+      * destruct (iter_plain_all_facts (labinv (S i)) x e _ pt (dense sh (sub e x)) 0
                   (with_lab z (snd (lab_reg (th_lab z) (Z.of_nat i)))) Hb R2) as (_ & _ & _ & F4).
-      apply lab_end_inv. exact F4.
+        apply lab_end_inv. exact F4.
+      * destruct (iter_plain_facts (labinv (S i)) x e _ pt (sub e x) 0
+                  (with_lab z (snd (lab_reg (th_lab z) (Z.of_nat i)))) Hb R2) as (_ & _ & _ & F4).
+        apply lab_end_inv. exact F4.
     + cbn [src_labels src_stream fst snd].
       set (ls1 := snd (lab_reg (th_lab z) (Z.of_nat i))) in *.
       destruct (lab_get_inv i ls1 R3) as (G1 & G2 & G3).
@@ -143,51 +332,78 @@ Proof.
       apply lab_end_inv. exact F4.
 Qed.
 
-Theorem eager_nest_spec_gen : forall n tr zshape nz m lv, forallb eager_level lv = true ->
-  forall i pt e z, length pt = i -> labinv i z -> env_ok e ->
-  spec tr n i lv pt e (fst (run tr zshape nz m lv i pt e z))
+Theorem eager_nest_spec_gen : forall zs n tr zshape nz m lv, forallb eager_level lv = true ->
+  forall i pt e z, length pt = i -> labinv i z -> env_ok e -> nest_int_ok tr i lv e ->
+  spec zs tr n i lv pt e (fst (run tr zshape nz m lv i pt e z))
   /\ labinv i (snd (run tr zshape nz m lv i pt e z)).
 Proof.
-  intros n tr zshape nz m lv. induction lv as [|L lv IH]; intros Hpl i pt e z Lpt Hz He.
-  - apply (plain_nest_spec_gen n tr zshape nz m [] eq_refl i pt e z Lpt Hz).
+  intros zs n tr zshape nz m lv. induction lv as [|L lv IH]; intros Hpl i pt e z Lpt Hz He Hio.
+  - apply (plain_nest_spec_gen zs n tr zshape nz m [] eq_refl i pt e z Lpt Hz).
   - cbn [forallb] in Hpl. apply andb_true_iff in Hpl. destruct Hpl as [HL Hpl].
     destruct L as [pop s u zu pj sh]. unfold eager_level in HL. cbn [l_pop l_src l_ufmt l_proj] in HL.
     destruct pop; [discriminate|]. destruct pj; [discriminate|].
     assert (Lc : forall c, length (pt ++ [c]) = S i) by (intros; rewrite app_length; cbn; lia).
     destruct s as [x|x y]; cbn [run].
-    + destruct u; [discriminate|]. apply plain_level_spec; auto.
+    + destruct u.
+      { apply u_level_spec; auto.
+        - intros c e' z' Hz'. apply eager_noall; auto.
+        - intros c t z' Hz' Hin. apply IH; auto.
+          + apply set_nth_ok; auto.
+            destruct (dense_ok sh (sub e x) (sub_ok e x He)) as [_ Hs]. rewrite Forall_forall in Hs. apply (Hs _ Hin).
+          + eapply nest_int_ok_down; [exact Hio|]. apply cleaner_set. intros Hx.
+            apply (offered_f_child true sh (sub e x) c t (sub_noemp e x Hx) Hin). }
+      apply plain_level_spec; auto.
       * intros c e' z' Hz'. apply eager_noall; auto.
-      * intros c t z' Hz' Hin. apply IH; auto. apply set_nth_ok; auto.
-        destruct (sub_ok e x He) as [_ Hs]. rewrite Forall_forall in Hs. apply (Hs _ Hin).
+      * intros c t z' Hz' Hin. apply IH; auto.
+        { apply set_nth_ok; auto.
+          destruct (sub_ok e x He) as [_ Hs]. rewrite Forall_forall in Hs. apply (Hs _ Hin). }
+        { eapply nest_int_ok_down; [exact Hio|]. apply cleaner_set. intros Hx.
+          apply (noemp_child (sub e x) c t (sub_noemp e x Hx) Hin). }
     + set (L := {| l_pop := false; l_src := SAnd x y; l_ufmt := u; l_zufmt := zu; l_proj := None; l_shape := sh |}).
       apply and_level_spec; auto.
       * apply (ref_off_ok L e x He).
       * apply (ref_off_ok L e y He).
+      * intros Hneed.
+        assert (Hn' : int_need tr (i + 0)) by (replace (i + 0)%nat with i by lia; exact Hneed).
+        destruct (Hio O L x y eq_refl eq_refl Hn') as [Hu|[Hx Hy]]; split; apply pos_ok_of; auto.
       * intros c e' z' Hz'. apply eager_noall; auto.
       * intros c tx ty z' Hz' Hin. apply IH; auto.
-        destruct (isect_ok _ _ _ _ _ (ref_off_ok L e x He) (ref_off_ok L e y He) Hin) as [Sx Sy].
-        apply set_nth_ok; auto. apply set_nth_ok; auto.
+        { destruct (isect_ok _ _ _ _ _ (ref_off_ok L e x He) (ref_off_ok L e y He) Hin) as [Sx Sy].
+          apply set_nth_ok; auto. apply set_nth_ok; auto. }
+        { eapply nest_int_ok_down; [exact Hio|].
+          unfold isect in Hin. apply in_flat_map in Hin. destruct Hin as ([c' t'] & Hin & Hm).
+          cbn [fst snd] in Hm.
+          match type of Hm with context [lookup ?a ?b] => destruct (lookup a b) eqn:El end; [|destruct Hm].
+          destruct Hm as [Hm|[]]. inversion Hm; subst.
+          destruct (lookup_In _ _ _ El) as [c2 Hin2].
+          eapply cleaner_trans.
+          - apply (cleaner_set e x tx). intros Hx. apply (offered_f_child u sh (sub e x) c tx (sub_noemp e x Hx) Hin).
+          - apply cleaner_set. intros Hy.
+            assert (Hy0 : noemp (nth y e (Node []))).
+            { rewrite nth_set_nth in Hy. rewrite Nat.eqb_sym in Hy.
+              destruct (Nat.eqb x y); [discriminate|]. exact Hy. }
+            apply (offered_f_child u sh (sub e y) c2 ty (sub_noemp e y Hy0) Hin2). }
 Qed.
 
-Theorem eager_nest_spec : forall n tr zshape nz m lv, forallb eager_level lv = true ->
-  forall i pt e z, length pt = i -> labinv i z -> env_ok e ->
-  spec tr n i lv pt e (fst (run tr zshape nz m lv i pt e z)).
+Theorem eager_nest_spec : forall zs n tr zshape nz m lv, forallb eager_level lv = true ->
+  forall i pt e z, length pt = i -> labinv i z -> env_ok e -> nest_int_ok tr i lv e ->
+  spec zs tr n i lv pt e (fst (run tr zshape nz m lv i pt e z)).
 Proof. intros. apply eager_nest_spec_gen; auto. Qed.
 
 (* read at the top of a collection session *)
-Theorem eager_nest_top : forall n tr zshape nz m lv keys m0 e z,
-  forallb eager_level lv = true -> env_ok e ->
+Theorem eager_nest_top : forall zs n tr zshape nz m lv keys m0 e z,
+  forallb eager_level lv = true -> env_ok e -> nest_int_ok tr 0 lv e ->
   let evs := fst (run tr zshape nz m lv 0 [] e {| th_z := z; th_lab := lab0 |}) in
   let st' := exec n (init_state keys true m0) evs in
   let d := dr lv [([], e)] in
   m_lo st' = iota d
   /\ forall kk, In kk keys -> exists data,
-       content st' kk = Some (hdrs kk 0 d ++ data) /\ rows_ok tr 0 [] lv [] e kk data.
+       content st' kk = Some (hdrs kk 0 d ++ data) /\ rows_ok zs tr 0 [] lv [] e kk data.
 Proof.
-  intros n tr zshape nz m lv keys m0 e z Hpl He evs st' d.
+  intros zs n tr zshape nz m lv keys m0 e z Hpl He Hio evs st' d.
   assert (Hsh : shape 0 0 [] [] (init_state keys true m0)).
   { unfold shape. cbn. repeat split; auto. }
-  destruct (eager_nest_spec n tr zshape nz m lv Hpl 0 [] e {| th_z := z; th_lab := lab0 |} eq_refl (labinv0 z) He
+  destruct (eager_nest_spec zs n tr zshape nz m lv Hpl 0 [] e {| th_z := z; th_lab := lab0 |} eq_refl (labinv0 z) He Hio
               0%nat [] _ Hsh) as (S1 & _ & E1).
   cbn [Nat.max plus] in S1, E1. fold evs in S1, E1. fold st' in S1. fold d in S1, E1.
   split; [apply S1|]. intros kk Hin. destruct (E1 kk) as (data & Ed & Od). exists data.
